@@ -251,7 +251,8 @@ def expand_items(items: CollapsedItems, is_linetable: bool) -> ExpandedItems:
                         bytecode_offset=MAX_BYTECODE,
                     )
                 )
-                if is_linetable:
+                # Sections without a line number have no line offset to use up
+                if is_linetable and line_offset is not None:
                     line_offset = 0
                 bytecode_offset -= MAX_BYTECODE
                 emitted_extra = True
